@@ -19,22 +19,22 @@ P("C01",
   technique="PBT with independent oracle: rapid-generated envelopes (fresh / near-miss / re-assembled / byte-mutated) x policies x reader behaviours x decoy signatures listed first; own JWS+COSE verifier and own payload decoder decide what a success may be; native fuzz in thorough",
   level_text="Exploration: every success reported by verifier.Verify/VerifyBlob and notation.Verify/VerifyBlob over generated envelopes, descriptors, metadata maps and all 24 enforcement maps is re-checked by an independent implementation of the envelope formats; cannot prove absence, but reaches the products of factors (mismatch x satisfied metadata, customised level x tampering) the unit tests never combine.",
   level_note="Trusts Go's crypto primitives, the harness's own JWS/COSE implementation (cross-validated against the library in both directions in every run) and fxamacker/cbor.",
-  health={"success": 50, "src=fresh": 20, "src=descriptor-nearmiss": 20, "src=metadata-nearmiss": 20, "src=reassembled": 20, "src=bytemutated": 20, "src=wrong-payload-type": 5, "plugin-misbehaves=nil-response": 50},
+  health={"success": 50, "src=fresh": 20, "src=descriptor-nearmiss": 20, "src=metadata-nearmiss": 20, "src=reassembled": 20, "src=bytemutated": 20, "src=wrong-payload-type": 5, "plugin-misbehaves=nil-response": 50, "src=payload-size-lies": 100},
   fuzz=[{"name": "FuzzC01_VerifyJWS", "seconds": 120}, {"name": "FuzzC01_VerifyCOSE", "seconds": 120}],
   assumptions=["cryptographic soundness of RSASSA-PSS/ECDSA as implemented by Go", "valid = valid under the six supported algorithms"])
 
 P("C02",
-  technique="model-based PBT: exhaustive no-plugin grid + rapid plugin scenarios against a decision table written from the statement; metamorphic monotonicity (strict=>permissive=>audit) and action-tagging relations; call-log invariants of scripted collaborators",
+  technique="model-based PBT: exhaustive no-plugin grid + rapid plugin scenarios against a decision table written from the statement; metamorphic monotonicity (strict=>permissive=>audit) and action-tagging relations; call-log invariants of scripted collaborators; generated further listed stores around the judged one",
   level_text="Exploration with an exhaustively enumerated core (all 24 enforcement maps x trust x identity x expiry x certificate-time x revocation situations without plugin) plus sampled plugin scenarios; the model restates the statement, the relations are model-independent.",
   level_note="Trusts the scripted trust store / revocation / plugin mocks and the harness's envelope builders; margins of >= 30 min around the wall clock.",
-  health={"accept": 50, "reject": 50, "plugin": 50, "crit=unprocessed": 5, "crit=processed": 5, "rev=skip": 10, "logged-failure": 20, "noncritical-attr-before": 20, "noncritical-attr-not-reported-by-plugin": 20, "blob-statement-with-same-name": 200, "crit-key-extends-plugin-header-name": 100},
+  health={"accept": 50, "reject": 50, "plugin": 50, "crit=unprocessed": 5, "crit=processed": 5, "rev=skip": 10, "logged-failure": 20, "noncritical-attr-before": 20, "noncritical-attr-not-reported-by-plugin": 20, "blob-statement-with-same-name": 200, "crit-key-extends-plugin-header-name": 100, "several-listed-stores": 500, "unloadable-store-beside-a-store-holding-the-root": 50},
   assumptions=["non-critical extended attributes are generated only as incidental filler (they must never decide anything, reported by the plugin or not); a non-critical plugin-name attribute is outside the statement and not generated"])
 
 P("C03",
-  technique="model-based PBT: generated placements of chain certificates into typed named stores x statement store lists; set-semantics oracle + call-log invariant of an instrumented trust store; scripted and real directory-backed stores; verifier instances reused across verifications; eight goroutines verifying through one verifier over the real store against the sequential model",
+  technique="model-based PBT: generated placements of chain certificates into typed named stores x statement store lists; set-semantics oracle + call-log invariant of an instrumented trust store; scripted and real directory-backed stores; verifier instances reused across verifications; eight goroutines verifying through one verifier over the real store against the sequential model; generated store names that reach other directories (constructor, late edit, direct store call); blob statement selection by generated names against a three-statement document",
   level_text="Exploration: authenticity verdict and the exact (type,name) sequence of trust-store loads compared with a set-semantics model over generated placements, multi-statement documents, both schemes and formats.",
   level_note="Trusts the instrumented trust store mock; a sub-family runs against the real directory-backed store.",
-  health={"auth=pass": 30, "auth=fail": 30, "decoy-wrong-type": 10, "decoy-unlisted": 10, "decoy-other-statement": 10, "listed-store-error": 10, "real-directory-store": 10, "verification-plugin=ti": 100, "scope-case-twin-selected": 100, "plugin-runs-after-logged-authenticity-failure": 50, "concurrent-verifications": 1, "listed-store-is-symlink": 50, "listed-store-bundle-ends-in-leaf": 50})
+  health={"auth=pass": 30, "auth=fail": 30, "decoy-wrong-type": 10, "decoy-unlisted": 10, "decoy-other-statement": 10, "listed-store-error": 10, "real-directory-store": 10, "verification-plugin=ti": 100, "scope-case-twin-selected": 100, "plugin-runs-after-logged-authenticity-failure": 50, "concurrent-verifications": 1, "listed-store-is-symlink": 50, "listed-store-bundle-ends-in-leaf": 50, "store-name-reaching-elsewhere": 100, "name-route=late": 30, "name-route=direct": 15, "blob-unknown-name-with-global-statement-present": 30})
 
 P("C04",
   technique="model-based + metamorphic PBT: structured subject/identity generators, own RFC 4514 renderer with generated spacing/alias/escaping; subset oracle on structured data; permutation/spacing/alias invariance; identity lists edited after construction (one-sided oracle); verifier reuse across an OCI and a same-named blob statement",
@@ -56,10 +56,10 @@ P("C06",
   health={"expiry=past": 10, "expiry=future": 10, "scheme=sa": 20, "tsa=applies": 30, "token=valid": 10, "token=absent": 5, "token=wrong-imprint": 5, "token=untrusted-tsa": 5, "ts=pass": 10, "ts=fail": 10, "token=ca-as-tsa": 10, "token=keyenc-only": 10, "revoked-tsa-under-revocation-skip": 5, "tsarev=revoked-later": 10, "constructor=legacy": 100, "real-directory-store": 100})
 
 P("C07",
-  technique="round-trip PBT: sign with the real signing API (local + honest in-process plugin signers) then verify; payload/digest/expiry/descriptor/metadata compared with the harness's own computation; reused plugin signer across keys, earlier untrusted signature of the other format, large metadata through the library's repository client, failing blob sources",
+  technique="round-trip PBT: sign with the real signing API (local + honest in-process plugin signers) then verify; payload/digest/expiry/descriptor/metadata compared with the harness's own computation; reused plugin signer across keys, earlier untrusted signature of the other format, large metadata through the library's repository client, failing blob sources; plugins that answer one command once with a retryable error; overlapping Sign calls on one signer with the schedule owned through a yielding context logger and plugin",
   level_text="Exploration: full sign->verify round trips over key specs x formats x signer kinds x OCI/blob targets x metadata x expiry; every observable the statement names is recomputed independently.",
   level_note="Trusts Go's crypto and JSON; JWS descriptor sizes are bounded by 2^53 (known finding F13 in a dependency).",
-  health={"kind=oci": 20, "kind=blob": 20, "signer=local": 10, "signer=plugin-raw": 10, "signer=plugin-envelope": 10, "format=jws": 20, "format=cose": 20, "artifact-annotations-empty-map": 20, "signer-reused-after-other-key": 20, "verify-omits=media-type": 10, "untrusted-signature-of-other-format-listed-first": 20, "large-metadata-through-registry-client": 6},
+  health={"kind=oci": 20, "kind=blob": 20, "signer=local": 10, "signer=plugin-raw": 10, "signer=plugin-envelope": 10, "format=jws": 20, "format=cose": 20, "artifact-annotations-empty-map": 20, "signer-reused-after-other-key": 20, "verify-omits=media-type": 10, "untrusted-signature-of-other-format-listed-first": 20, "large-metadata-through-registry-client": 6, "plugin-transient-error-after-blob-was-read": 10, "overlap-signer=local": 4, "overlap-signer=plugin-envelope": 4},
   shards={"quick": 12, "thorough": 16})
 
 P("C08",
@@ -97,14 +97,14 @@ P("C10",
   level_text="Exploration with an exhaustively enumerated core: every listing of up to 5 (quick) / 8 (thorough) signatures x every page split x every limit x reference kinds is run through notation.Verify and compared with a model written from the statement, including exact fetch/verify call counts; larger listings are sampled with rapid; a second family realises the statuses with real signatures, the real verifier and an in-memory OCI store and evaluates the model on the order the store actually lists.",
   level_note="Trusts the scripted Repository/Verifier mocks to record calls faithfully and oras' reference parser for what counts as a tag/digest reference.",
   design_ref="DESIGN.md section 5, C10",
-  health={"success": 10, "success-after-invalid": 5, "multi-page": 10, "empty-page": 5, "skip": 5, "ref=mismatch": 5, "limit<=0": 5, "real-verifier": 10, "ref=mismatch-sha512": 100, "listing-repeats-a-descriptor": 200},
+  health={"success": 10, "success-after-invalid": 5, "multi-page": 10, "empty-page": 5, "skip": 5, "ref=mismatch": 5, "limit<=0": 5, "real-verifier": 10, "ref=mismatch-sha512": 100, "listing-repeats-a-descriptor": 200, "repository-wraps-callback-errors": 1000},
   assumptions=["a verifier that returns an error together with a nil outcome is outside the statement and not generated"])
 
 P("C11",
   technique="stateful PBT (rapid state machine of 1..3 SignOCI calls) over a retaining scripted repository, an in-memory store and an on-disk OCI layout; tree-diff and deep-snapshot oracles",
   level_text="Exploration over call sequences: signer input, pushed subject/annotations, and the complete before/after state of repository, descriptors and option maps are compared with pristine copies.",
   level_note="Trusts oras-go's OCI layout implementation and the harness's tree snapshot.",
-  health={"repo=scripted": 20, "repo=oci-layout": 20, "calls>=2": 20, "meta=colliding": 5, "meta=reserved": 5, "ref=digest-mismatch": 5, "signer-annotations=clashing": 100, "plugin-backed-signer=envelope": 100, "plugin-backed-signer=envelope-drops-annotations": 50})
+  health={"repo=scripted": 20, "repo=oci-layout": 20, "calls>=2": 20, "meta=colliding": 5, "meta=reserved": 5, "ref=digest-mismatch": 5, "signer-annotations=clashing": 100, "plugin-backed-signer=envelope": 100, "plugin-backed-signer=envelope-drops-annotations": 50, "reference-moves-after-first-resolve": 50})
 
 P("C12",
   technique="robustness PBT + fuzzing: structured mutations of valid inputs and the full verifier-configuration cross product run under recover with allocation accounting; hostile on-disk OCI layouts and an in-process hostile HTTP registry behind the real oras client; four native fuzz targets in thorough",
@@ -185,7 +185,7 @@ P("C17",
   timeout={"quick": 900, "thorough": 5400})
 
 P("C18",
-  technique="adversarial-collaborator PBT: scripted in-process signing plugin holding real keys answers with generated edit scripts of the honest answer; independent verifier + verifier-equivalent payload decoding as oracle; native fuzz of payload bytes in thorough; two overlapping signings on one signer ordered by the scripted plugin",
+  technique="adversarial-collaborator PBT: scripted in-process signing plugin holding real keys answers with generated edit scripts of the honest answer; independent verifier + verifier-equivalent payload decoding as oracle; native fuzz of payload bytes in thorough; two overlapping signings on one signer ordered by the scripted plugin; edited payloads written into the request's own buffer",
   level_text="Exploration: whatever PluginSigner.Sign/SignBlob returns for generated adversarial plugin answers is re-verified independently and compared with the request; a panic or an unchecked signature is a violation.",
   level_note="Trusts the harness's own envelope implementation; the plugin holds real keys so that only the semantic edits differ from an honest answer.",
   health={"path=envelope": 50, "path=raw": 50, "honest": 10, "format=jws": 50, "format=cose": 50, "target=oci": 50, "target=blob": 50,
@@ -197,14 +197,14 @@ P("C18",
           "edit=spell-target": 5, "edit=dup-target-null-after": 5, "edit=echo-type-wrong": 5, "edit=format-other": 5,
           "edit=payload-type-wrong": 5, "edit=sig-corrupt": 5, "edit=key-mismatch": 5, "edit=extra-top-unknown": 5, "edit=extra-desc-unknown": 5,
           "edit=describe-keyid-wrong": 5, "edit=gensig-keyid-wrong": 5,
-          "fuzz-payload": 10, "returned-signature": 10, "returned-error": 50, "overlapping-signs": 4},
+          "fuzz-payload": 10, "returned-signature": 10, "returned-error": 50, "overlapping-signs": 4, "payload-rewritten-in-request-buffer": 50},
   fuzz=[{"name": "FuzzC18_PluginPayload", "seconds": 120}])
 
 P("C19",
-  technique="stateful model-based PBT (rapid state machine of pushes / foreign and hostile referrers / reopen / list / fetch) over an on-disk OCI layout and an in-memory store; multiset model of signatures per subject; blob-cap boundary with real content; returned slices held across later calls; push descriptors that lie about the artifact type",
+  technique="stateful model-based PBT (rapid state machine of pushes / foreign and hostile referrers / reopen / list / fetch) over an on-disk OCI layout and an in-memory store; multiset model of signatures per subject; blob-cap boundary with real content; returned slices held across later calls; push descriptors that lie about the artifact type; second state machine over registry.NewOCIRepository with the layout read back through handles opened after the pushes",
   level_text="Exploration over push histories: listing and fetching compared with a model multiset per subject; hostile referrers must be refused before their content is read (blob-fetch log).",
   level_note="One oci.Store instance per session (oras behaviour); trusts oras-go's store for the non-notation parts.",
-  health={"store=disk": 100, "store=memory": 100, "subjects>=2": 100, "subjects-same-content": 50, "reopened": 20,
+  health={"store=disk": 100, "store=memory": 100, "subjects>=2": 100, "subjects-same-content": 50, "reopened": 20, "layout-listed-through-another-handle-after-push": 30, "layout-pushed-through-several-handles": 20,
           "op=push-signature": 500, "op=push-foreign": 300, "op=push-hostile": 300, "op=list": 1000, "op=fetch": 1000, "op=fetch:kept": 100,
           "op=fetch-hostile": 300, "op=reopen": 50, "env=1B": 20, "env=256KiB": 20,
           "op=push-foreign:other-type": 30, "op=push-foreign:legacy-other-type": 30, "op=push-foreign:legacy-notation": 30,
